@@ -105,6 +105,8 @@ namespace OP2Utility::Tileset
 		PpalHeader ppalHeader = PpalHeader::Create();
 		
 		SectionHeader paletteHeader{ DefaultTagData, DefaultPaletteHeaderSize };
+		// The palette section always holds a full length palette. Pad a partially filled palette to match the declared section size
+		tileset.palette.resize(DefaultPaletteHeaderSize / sizeof(Color), DiscreteColor::Black);
 		SwapPaletteRedAndBlue(tileset.palette);
 
 		SectionHeader pixelHeader{ DefaultTagData, CalculatePixelHeaderLength(absoluteHeight) };
